@@ -6,7 +6,7 @@ from typing import Any, Dict, List, Optional, Set, Tuple
 
 from .. import linexpr as lx
 from ..ccfg import build_c_cfg, loop_heads
-from ..cfacts import CUnit, call_args, callee, is_assign, strip, walk
+from ..cfacts import CUnit, call_args, callee, int_value, is_assign, strip, walk
 from ..core import AnalysisError, Report
 from ..linexpr import Env, c_ir
 from ..pycfg import Graph, Node, must_dataflow
@@ -304,49 +304,64 @@ def rule_signal(rep: Report, cu: CUnit) -> None:
     MASK = cu.macro_int('SIGNAL_CHECK_MASK')
     rep.check(MASK == (1 << 18) - 1, 'C18.SIGNAL', 'SIGNAL_CHECK_MASK', hex(MASK), cu.rel, expected='2^18 - 1 (documented cadence)')
     for fname in ('run_flat_loop_impl', 'run_paged_loop_impl'):
-        g = build_c_cfg(cu, fname, {'with_ring': 1} if fname == 'run_paged_loop_impl' else {})
-        heads = loop_heads(g, 'do-head')
-        if len(heads) != 1:
-            raise AnalysisError(f'{fname}: inner do-while not found')
-        head = heads[0]
-        back_srcs = {cu.src_of(g.nodes[p].ast) if isinstance(g.nodes[p].ast, dict) else g.nodes[p].kind
-                     for p, _ in g.pred[head]}
-        rep.check(back_srcs == {'--inner_left', 'inner_left = SIGNAL_CHECK_MASK + 1'}, 'C18.SIGNAL', f'{fname}:back-edge',
+        consts0 = {'with_ring': 1} if fname == 'run_paged_loop_impl' else {}
+        L0 = CLoop(cu, fname, M.ROLES_C[fname], consts0)
+        g = L0.g
+        head = L0.head()              # the per-op loop head, whatever statement kind spells the loop
+        # the budget variable: the local that is assigned SIGNAL_CHECK_MASK + 1
+        budget = sorted({cu.src_of(n['inner'][0]) for n in walk(cu.body(fname)) if is_assign(n) and cu.src_of(n['inner'][1]) == 'SIGNAL_CHECK_MASK + 1'})
+        if len(budget) != 1:
+            raise AnalysisError(f'{fname}: the strip-mining budget variable was not found ({budget})')
+        bv = budget[0]
+        def pred_kind(pid: int) -> str:
+            a = g.nodes[pid].ast
+            t = cu.src_of(a).replace(' ', '') if isinstance(a, dict) else g.nodes[pid].kind
+            if t == f'{bv}=SIGNAL_CHECK_MASK+1':
+                return 'budget refreshed'
+            if t in (f'--{bv}', f'{bv}--', f'{bv}-=1', f'--{bv}==0', f'--{bv}!=0', f'{bv}=={bv}' ) or t.startswith(f'--{bv}') or t.startswith(f'{bv}--'):
+                return 'budget decremented'
+            return f'OTHER: {t[:40]}'
+        back_srcs = {pred_kind(p) for p, _ in g.pred[head]}
+        rep.check(back_srcs == {'budget decremented', 'budget refreshed'}, 'C18.SIGNAL', f'{fname}:back-edge',
                   f'the per-op loop head is entered from {sorted(back_srcs)}', cu.site(cu.func(fname)),
-                  expected='only from the budget decrement (--inner_left) or right after a poll refreshed the budget')
-        assigns = [cu.src_of(n['inner'][1]) for n in walk(cu.body(fname)) if is_assign(n) and cu.src_of(n['inner'][0]) == 'inner_left']
+                  expected='only from the budget decrement or right after a poll refreshed the budget')
+        assigns = [cu.src_of(n['inner'][1]) for n in walk(cu.body(fname)) if is_assign(n) and cu.src_of(n['inner'][0]) == bv]
         rep.check(assigns == ['SIGNAL_CHECK_MASK + 1'], 'C18.SIGNAL', f'{fname}:budget', f'inner_left = {assigns}',
                   cu.site(cu.func(fname)), expected='one assignment: SIGNAL_CHECK_MASK + 1')
         # entry to the do-head from outside passes: publish -> CheckSignals -> budget
-        outer = [p for p, lab in g.pred[head] if p not in g.reachable(head) or (cu.src_of(g.nodes[p].ast) if isinstance(g.nodes[p].ast, dict) else '') != '--inner_left']
-        seq = _straight_preds(cu, g, head, 4)
-        ok = len(seq) >= 3 and seq[0] == 'inner_left = SIGNAL_CHECK_MASK + 1' and seq[1] == 'PyErr_CheckSignals() < 0' \
-            and seq[2] == 'self->last_run_op_count = ops'
+        seq = _straight_preds(cu, g, head, 4, lambda pid: pred_kind(pid) == 'budget decremented')
+        opsv = L0.roles['ops']
+        ok = len(seq) >= 3 and seq[0] == f'{bv} = SIGNAL_CHECK_MASK + 1' and seq[1] == 'PyErr_CheckSignals() < 0' \
+            and seq[2] == f'self->last_run_op_count = {opsv}'
         rep.check(ok, 'C18.SIGNAL', f'{fname}:poll', f'before each strip: {seq[::-1]}', cu.site(cu.func(fname)),
                   expected='publish ops; poll signals; set the budget')
     # measured loop
     fname = 'run_measured_loop'
     body = cu.body(fname)
-    for_stmt = [n for n in walk(body) if n.get('kind') == 'ForStmt'][0]
-    first = [c for c in for_stmt['inner'][-1].get('inner', []) if c.get('kind') == 'IfStmt']
-    ok = bool(first) and cu.src_of(first[0]['inner'][0]) == '(ops & SIGNAL_CHECK_MASK) == SIGNAL_CHECK_MASK'
+    opsv = CLoop(cu, fname, M.ROLES_C[fname]).roles['ops']
+    loops_m = [n for n in walk(body) if n.get('kind') in ('ForStmt', 'WhileStmt', 'DoStmt')]
+    first = [c for c in loops_m[0]['inner'][-1].get('inner', []) if c.get('kind') == 'IfStmt'] if loops_m else []
+    want_poll = lx.canon(('cmp', ['=='], [('bin', '&', ('sym', opsv), ('sym', 'SIGNAL_CHECK_MASK')), ('sym', 'SIGNAL_CHECK_MASK')]), Env({}))
+    got_poll = lx.canon(c_ir(first[0]['inner'][0], lambda n: cu.src_of(n)), Env({})) if first else None
+    MASKV = cu.macro_int('SIGNAL_CHECK_MASK')
+    want_poll2 = lx.canon(('cmp', ['=='], [('bin', '&', ('sym', opsv), ('num', MASKV)), ('num', MASKV)]), Env({}))
+    ok = bool(first) and got_poll in (want_poll, want_poll2)
     inner = [cu.src_of(x) for x in first[0]['inner'][1].get('inner', [])] if first else []
-    ok = ok and inner[:1] == ['self->last_run_op_count = ops'] and any('PyErr_CheckSignals() < 0' in x for x in inner)
-    rep.check(ok, 'C18.SIGNAL', f'{fname}:poll', f'{inner[:2]}', cu.site(cu.func(fname)),
+    ok = ok and inner[:1] == [f'self->last_run_op_count = {opsv}'] and any('PyErr_CheckSignals() < 0' in x for x in inner)
+    rep.check(ok, 'C18.SIGNAL', f'{fname}:poll', f'{inner[:2]} under {got_poll}', cu.site(cu.func(fname)),
               expected='(ops & MASK) == MASK -> publish ops, poll')
-    incs = [n for n in walk(body) if n.get('kind') == 'UnaryOperator' and n.get('opcode') == '++' and cu.src_of(n['inner'][0]) == 'ops']
+    incs = [n for n in walk(body) if (n.get('kind') == 'UnaryOperator' and n.get('opcode') == '++' and cu.src_of(n['inner'][0]) == opsv)
+            or (n.get('kind') == 'CompoundAssignOperator' and n.get('opcode') == '+=' and cu.src_of(n['inner'][0]) == opsv and int_value(n['inner'][1]) == 1)]
     rep.check(len(incs) == 1, 'C18.SIGNAL', f'{fname}:one-increment', f'{len(incs)} increments of ops per iteration',
               cu.site(cu.func(fname)))
 
 
-def _straight_preds(cu: CUnit, g: Graph, head: int, k: int) -> List[str]:
+def _straight_preds(cu: CUnit, g: Graph, head: int, k: int, is_back_edge: Any) -> List[str]:
     """texts of the nodes preceding the loop head on the entry path from outside the loop (nearest first)."""
-    inside = g.reachable(head)
     out: List[str] = []
     cur = None
     for p, lab in g.pred[head]:
-        a = g.nodes[p].ast
-        if isinstance(a, dict) and cu.src_of(a) == '--inner_left':
+        if is_back_edge(p):
             continue
         cur = p
     while cur is not None and len(out) < k:
